@@ -74,7 +74,31 @@ theorem iab_split (e : Nat) (strict : Bool) :
     · have n2 : ¬ Py.inNat (((e >>> 12) >>> 12 : Nat) : Int) iabEuiValues := fun h => h2 ((inNat_cast _ _).1 h)
       rw [if_neg n2, if_neg h2]
 
+/-- `EUI.modified_eui64()`: the value handed on is the model's EUI-64 value with bit 57 flipped -/
+theorem eui_modified_eui64 (ver v : Nat) :
+    EUI_modified_eui64 ver (v : Int) = (((eui64Value ver v ^^^ 0x0200000000000000 : Nat) : Int), 64) := by
+  unfold EUI_modified_eui64
+  rw [eui_eui64]
+  have m : (144115188075855872 : Int) = ((144115188075855872 : Nat) : Int) := rfl
+  simp only [m, Py.ixor_ofNat]
+
+/-- `EUI.ipv6(prefix)`: `IPAddress(prefix + modified EUI-64, version=6)` -/
+theorem eui_ipv6 (ver v pfx : Nat) :
+    EUI_ipv6 ver (v : Int) (pfx : Int) = (((pfx + (eui64Value ver v ^^^ 0x0200000000000000) : Nat) : Int), 6) := by
+  unfold EUI_ipv6
+  rw [eui_modified_eui64]
+  simp only []
+  congr 1
+
+/-- `EUI.ipv6_link_local()` -/
+theorem eui_ipv6_link_local (ver v : Nat) :
+    EUI_ipv6_link_local ver (v : Int) =
+      (((0xfe800000000000000000000000000000 + (eui64Value ver v ^^^ 0x0200000000000000) : Nat) : Int), 6) := by
+  unfold EUI_ipv6_link_local
+  exact eui_ipv6 ver v 0xfe800000000000000000000000000000
+
 example : EUI_is_iab 48 0x0050C2000123 = true ∧ EUI_is_iab 64 0x0050C2000123 = false ∧
-    EUI_eui64 48 0x001B774954FD = (0x001B77FFFE4954FD, 64) := by decide
+    EUI_eui64 48 0x001B774954FD = (0x001B77FFFE4954FD, 64) ∧
+    EUI_ipv6_link_local 48 0x001B774954FD = (0xfe80000000000000021B77FFFE4954FD, 6) := by decide
 
 end NV.Tie
